@@ -179,7 +179,10 @@ claim("C03",
       "document (multi-segment mode, emitted segments with an allocatable section, any options, object table and --defsym table) every emitted "
       "segment with fixed_vram v has an output section .<segment> at address v - provided neither the script nor the --defsym table defines a "
       "symbol spelled like the literal (assignCount = 0, decidable; passes_none / carry_none carry 'nobody has assigned it' through every "
-      "evaluation of the script)." + IMG,
+      "evaluation of the script). Props/C03Vram.lean: segments_vram_end, final_vram_end (for every emitted segment the image has numbers "
+      "aS <= aE <= dN with the output section .<segment> recorded at [aS, aE) and - for a name the script assigns once - the VRAM end symbol "
+      "equal to dN rounded up to the segment end alignment) and final_vram_end_aligned (the VRAM end lies behind the allocatable output "
+      "section and is a multiple of the requested end alignment: the C09 clause for the VRAM end)." + IMG,
       "Lean 4 proofs of the emitted address statements + real-link oracle for their meaning", "DESIGN.md §8 C03")
 claim("C04",
       "Lean theorems (Props/C04.lean): sections_rom — in every multi-segment script the statements touching __romPos together with all output "
@@ -194,7 +197,10 @@ claim("C04",
       "table) each emitted segment's ROM start symbol is the previous emitted segment's ROM end (0 for the first) rounded up to its start "
       "alignment and its ROM end symbol is that plus the size of its allocatable output section only, rounded up to its end alignment - for "
       "every ROM symbol the script assigns once (Ld.assignCount <= 1, decidable, evaluated on every linked case: evidence final_hypothesis); "
-      "the bridge (Props/Final.lean: step_keeps, execK_keeps, imageOf_sym, link_eq) holds for every statement and state." + IMG,
+      "the bridge (Props/Final.lean: step_keeps, execK_keeps, imageOf_sym, link_eq) holds for every statement and state. Props/C04Partial.lean: "
+      "partialSegments_main (the segment part of the main script of partial mode is add_segment of the emitted segments, each with the one "
+      "partial object as its file list) and final_rom_symbols_partial (the same recurrence for the ROM symbols in the image of the main "
+      "script of partial mode, over the sizes the final link gives the partial objects' contents)." + IMG,
       "Lean 4 proof: ROM view of the generated script + recurrence over a ROM machine; real-link validation", "DESIGN.md §8 C04")
 claim("C05",
       "Lean theorems (Props/C05.lean): section_symbols_defined, kind_symbols_defined, segment_symbols_defined (every family has start, end and "
